@@ -432,7 +432,31 @@ def compare(ctx, batch):
                 ctx.disagree('corr:%s:%s' % (op, w), dict(inp, property=w), o, mm)
 
 
+def anchored_functions():
+    from pgradd.ThermoChem import ThermochemGroupAdditive
+    return C5.anchored_functions() + [('group_data.__init__', ThermochemGroupAdditive.__init__),
+                                      ('group_data.get_CpoR', ThermochemGroupAdditive.get_CpoR),
+                                      ('group_data.get_HoRT', ThermochemGroupAdditive.get_HoRT),
+                                      ('group_data.get_SoR', ThermochemGroupAdditive.get_SoR)]
+
+
+# not reached on purpose: the array path of get_CpoR; `del self._correlation` (C13); S_elements=True (C07)
+REACH_EXEMPT = {'raw_data.get_CpoR': 1, 'incomplete._setup_correlation': 1, 'group_data.get_SoR': 1}
+FLOORS = {'single_just_outside_outside': 20, 'single_just_outside_incomplete': 20, 'single_just_outside_ok_warn': 5,
+          'single_at_bound_ok': 50, 'single_just_inside_ok': 50, 'single_nonpositive_outside': 20, 'single_tref_ok_warn': 3,
+          'single_nonpositive_nonfinite': 1, 'single_norange_ok_warn': 5, 'est_just_outside_incomplete': 20,
+          'est_just_outside_ok_warn': 10, 'est_at_bound_ok': 30, 'est_mk_assertion': 3, 'est_norange_ok_warn': 5,
+          'fold_assertion': 20, 'fold_ok': 20, 'shipped_estimates': 20, 'shipped_single': 100, 'mk_value': 10,
+          'model_h_nonfinite': 1, 'model_h_ok_warn': 20, 'model_cp_outside': 20}
+
+
 def run(ctx):
+    with L.Reach(anchored_functions()) as reach:
+        run_inner(ctx)
+    C5.check_reach(ctx, reach, FLOORS, REACH_EXEMPT)
+
+
+def run_inner(ctx):
     for fname, rec in common.load_corpus('C06'):
         ctx.count('corpus')
         replay(ctx, rec)
